@@ -72,6 +72,34 @@ func init() {
 			}
 			return Value{}, true
 		},
+		"vRaceDetect": func(g *Goroutine, c *frame, fn *ssa.Function, a []Value) (Value, bool) {
+			if g.forceBool(a[0]) {
+				g.p.race = newRaceMon()
+			} else {
+				g.p.race = nil
+			}
+			return Value{}, true
+		},
+		// vRaces reports the number of distinct data races found so far and records each as a violation.
+		"vRaces": func(g *Goroutine, c *frame, fn *ssa.Function, a []Value) (Value, bool) {
+			if g.p.race == nil {
+				return mkInt(64, 0), true
+			}
+			for _, f := range g.p.race.found {
+				g.p.siteOverride = "race"
+				g.p.violation(c, "race", "data race: "+f, f, nil)
+			}
+			n := len(g.p.race.found)
+			g.p.race.found = nil
+			return mkInt(64, uint64(n)), true
+		},
+		// vPreemptions(k): with schedule exploration on, at most k switches away from a
+		// goroutine that could have continued (context-bounded exploration).
+		"vPreemptions": func(g *Goroutine, c *frame, fn *ssa.Function, a []Value) (Value, bool) {
+			g.p.preemptBound = true
+			g.p.preemptLeft = int(g.forceInt(a[0]))
+			return Value{}, true
+		},
 		"vStall": func(g *Goroutine, c *frame, fn *ssa.Function, a []Value) (Value, bool) {
 			g.yield()
 			return Value{}, true
